@@ -498,6 +498,77 @@ def rule_payload_dup(ctx, rep, rule="R-PAYLOAD-DUP"):
     return n
 
 
+def rule_payload_gap(ctx, rep, rule="R-PAYLOAD-GAP"):
+    """The mirror image of R-PAYLOAD-DUP: a payload destroyed in place (`ptr::drop_in_place(&mut (*p).data)`) through a handle that
+    stays armed leaves a hole that the handle's destructor would destroy again. Until the slot is written again nothing may run
+    that can fail or unwind - no user code, no return: `drop_in_place(slot); ptr::write(slot, T::deserialize(d)?)` destroys the old
+    value twice when the deserialiser reports an error."""
+    from . import ptrclass, symx
+
+    n = 0
+    for tag, F, E in ctx.each():
+        A = analysis(tag, F, E)
+        N = ptrclass.Norm(F)
+        for b in F.body_list:
+            if not is_api(F, b) or b["key"] in A.errors:
+                continue
+            imp = b.get("impl") or {}
+            if imp.get("trait") == DROP_TRAIT:
+                continue
+            B = None
+
+            def data_of_arg(op):
+                nf = N.norm(symx.expr(F, B, op), {})
+                x = nf[1] if nf[0] in ("data", "dataplace") else None
+                while x is not None and x[0] == "stored":
+                    x = x[1]
+                return x[1] if x is not None and x[0] == "arg" else None
+
+            for bi, bl in enumerate(b["blocks"]):
+                t = bl["term"]
+                if t["k"] != "call" or not t["args"]:
+                    continue
+                r = t.get("resolved")
+                path = r["def"] if isinstance(r, dict) else (t.get("callee") or "")
+                if path not in ("core::ptr::drop_in_place", "<*mut T>::drop_in_place"):
+                    continue
+                if B is None:
+                    B = cfg.Body(b)
+                argi = data_of_arg(t["args"][0])
+                if argi is None or F.tokens(F.strip_refs(b["inputs"][argi - 1]))[0] <= 0:
+                    continue
+                n += 1
+                ik = "%s/payload-destroyed-in-place:arg%d" % (b["key"], argi)
+                bad = None
+                for p in A.paths.get(b["key"], []):
+                    blocks = list(p.blocks)
+                    if bi not in blocks:
+                        continue
+                    refilled = False
+                    for x in blocks[blocks.index(bi) + 1 :]:
+                        tx = b["blocks"][x]["term"]
+                        if tx["k"] == "call":
+                            rx = tx.get("resolved")
+                            px = rx["def"] if isinstance(rx, dict) else (tx.get("callee") or "")
+                            if px in ("core::ptr::write", "<*mut T>::write") and tx["args"] and data_of_arg(tx["args"][0]) == argi:
+                                refilled = True
+                                break
+                            if tx.get("resolved") == "unresolved" or tx.get("indirect"):
+                                bad = (p, tx, "user code (%s) runs" % (tx.get("callee") or "a callback"))
+                                break
+                    if bad:
+                        break
+                    if not refilled:
+                        bad = (p, t, "the function is left (%s)" % ("returns" if p.exit == "ret" else "unwinds"))
+                        break
+                if bad:
+                    p, tx, what = bad
+                    rep.bad(rule, ik, path_report(F, b, p, "the payload is destroyed in place (line %s) while the handle that owns it stays armed, and %s at line %s before the slot has been written again: the handle's destructor destroys the same value a second time" % (t["span"]["line"], what, tx["span"]["line"])), F.loc(b, t["span"]), tag)
+                else:
+                    rep.ok(rule, ik, cfg=tag)
+    return n
+
+
 def _payload_is_uninit(F, ty_idx, depth=0):
     """The handle type's payload is `MaybeUninit<_>` (directly, or inside UniqueArc's wrapped Arc)."""
     t = F.ty(ty_idx)
